@@ -252,7 +252,7 @@ func c11MemberDerefSSA(r *Run, rule string, navID *FuncInfo) bool {
 	if fn == nil || m.expr == nil {
 		return false
 	}
-	paths, ok := walkPathsUnrolled(fn, nil, nil, 50000)
+	paths, ok := walkPathsUnrolled(fn, nil, m.inline, 50000)
 	if !ok {
 		return false
 	}
@@ -448,7 +448,7 @@ func c11FieldDerefSSA(r *Run, rule string, navID *FuncInfo) {
 		r.Lost(rule, "SSA form of the member lookup")
 		return
 	}
-	paths, ok := walkPathsUnrolled(fn, nil, nil, 50000)
+	paths, ok := walkPathsUnrolled(fn, nil, w.coreModel().inline, 50000)
 	if !ok {
 		r.Lost(rule, "paths of the member lookup")
 		return
